@@ -78,6 +78,7 @@ type config struct {
 	civil, every       int
 	noTrans            int // next cases per zone window without any transition
 	model              bool
+	empty              []string // empty-set probes (each runs Next into the five-year limit)
 }
 
 func tierConfig(f lib.Flags, res *lib.Result) config {
@@ -92,9 +93,11 @@ func tierConfig(f lib.Flags, res *lib.Result) config {
 	case f.Search:
 		c = config{zones: all, y0: 2005, y1: 2040, nextDST: 660000, nextFixed: 60000, civil: 0, every: 40000, noTrans: 8}
 	case f.Tier == "thorough":
-		c = config{zones: all, y0: 2005, y1: 2040, nextDST: 440000, nextFixed: 40000, civil: 50000, every: 20000, noTrans: 8}
+		c = config{zones: all, y0: 1970, y1: 2100, nextDST: 800000, nextFixed: 40000, civil: 50000, every: 20000, noTrans: 4,
+			empty: []string{"month", "days", "hour", "minute", "second"}}
 	default:
-		c = config{zones: quickZones, y0: 2015, y1: 2026, nextDST: 150000, nextFixed: 20000, civil: 15000, every: 5000, noTrans: 40}
+		c = config{zones: quickZones, y0: 2015, y1: 2026, nextDST: 150000, nextFixed: 20000, civil: 15000, every: 5000, noTrans: 40,
+			empty: []string{"month", "days", "hour", "minute"}}
 	}
 	ok := c.zones[:0:0]
 	for _, z := range c.zones {
@@ -260,6 +263,23 @@ func enumerate(c config, r *lib.Rand, res *lib.Result) []*group {
 	for left := c.every; left > 0; left -= 2000 {
 		groups = append(groups, &group{kind: gEvery, zone: "UTC", loc: time.UTC, nEvery: min(left, 2000), r: r.Fork(), others: otherLocs})
 	}
+	// (3b) empty-set probes: UTC gets all of them, one hour zone the cheap ones
+	if len(c.empty) > 0 {
+		groups = append(groups, &group{kind: gEmpty, zone: "UTC", loc: time.UTC, y0: 2021, y1: 2021,
+			table: []tabEnt{{0, 0}}, r: r.Fork(), emptyFields: c.empty})
+		if loc, err := resolveLoc("America/New_York"); err == nil {
+			cheap := []string{}
+			for _, f := range c.empty {
+				if f != "second" {
+					cheap = append(cheap, f)
+				}
+			}
+			t := time.Date(2021, 3, 4, 0, 0, 0, 0, time.UTC)
+			ws, we := window(t, t)
+			groups = append(groups, &group{kind: gEmpty, zone: "America/New_York", loc: loc, y0: 2021, y1: 2021,
+				table: buildTable(loc, ws, we), r: r.Fork(), emptyFields: cheap})
+		}
+	}
 	// (4) the two deliberate day-skip probes
 	if loc, err := resolveLoc("Pacific/Apia"); err == nil {
 		t := time.Date(2011, 12, 29, 0, 0, 0, 0, time.UTC)
@@ -382,9 +402,16 @@ func report(groups []*group, res *lib.Result) {
 			zc = "zone:iana-no-transition-in-window"
 		case g.kind == gProbe:
 			zc = "zone:dayskip-probe"
+		case g.kind == gEmpty:
+			zc = "zone:empty-set-probe"
 		}
 		thm := "theorem:" + theoremClass(g.table)
 		for _, it := range g.items {
+			if it.slow {
+				res.Hit("empty-set:" + strings.TrimPrefix(it.sp.text, "empty "))
+				res.Note(fmt.Sprintf("empty-set probe (%s, %s empty): real Next answered %s after %s; model %q",
+					g.zone, strings.TrimPrefix(it.sp.text, "empty "), it.impl, it.dur.Round(time.Microsecond), it.model))
+			}
 			if it.kind == "next" && it.skipped == "" {
 				res.Hit(thm)
 			}
@@ -699,6 +726,9 @@ func main() {
 	}
 	if n := globalTimeouts.Load(); n > 2 {
 		res.Note(fmt.Sprintf("%d calls of Next timed out in total (2 are the deliberate Pacific/Apia probes)", n))
+	}
+	if n := slowCalls.Load(); n > 0 {
+		res.Note(fmt.Sprintf("%d calls of Next exceeded %s but returned (slowest retry %s)", n, callDeadline, time.Duration(slowestCall.Load()).Round(time.Millisecond)))
 	}
 	res.Note(fmt.Sprintf("wall time %.1fs", time.Since(start).Seconds()))
 	res.Write(f.Out)
